@@ -28,7 +28,7 @@ from pexpect.exceptions import EOF, TIMEOUT
 PROPERTY = 'C09'
 RULE = ('Hypothesis-generated (fate, way of dying, observation history of 1-5 operations with repeats, transport) on '
         'real children: exit codes 0..255, 18 terminating signals, self-inflicted or sent through kill()/terminate()/'
-        'close(); pty, PopenSpawn and run().  Thorough adds the exhaustive product: all 256 exit codes x 6 first '
+        'close(), or met after a close(force=False) that the child refused (it ignores HUP/INT); pty, PopenSpawn and run().  Thorough adds the exhaustive product: all 256 exit codes x 6 first '
         'observers and all signals x 6 first observers.  Non-trivial: a code outside {0,1} or a signal, observed '
         'through >= 2 operations.  Distinct by hash of the case.')
 ASSUMPTIONS = [
@@ -69,10 +69,20 @@ def cases(draw):
         how = 'self'
     n = draw(st.integers(1, 5))
     hist = [draw(st.sampled_from(OBSERVERS)) for _ in range(n)]
+    if transport == 'pty' and draw(st.integers(0, 5)) == 0:
+        # close(force=False) is refused by a child that ignores HUP and INT; the child then meets its fate
+        # (TERM -> exit N through a trap, or another signal) and is observed through the history
+        how = 'close-refused'
+        if fate[0] == 'signal' and fate[1] in ('HUP', 'INT'):
+            fate = ['signal', 'KILL']
+        hist = [draw(st.sampled_from(['isalive', 'wait', 'close', 'close', 'terminate'])) for _ in range(n)]
     return {'transport': transport, 'fate': fate, 'how': how, 'history': hist}
 
 
 def command(fate, how):
+    if how == 'close-refused':
+        tail = "trap 'exit %d' TERM; " % fate[1] if fate[0] == 'exit' else ''
+        return ['/bin/sh', '-c', "trap '' HUP INT; %secho READY; while :; do sleep 0.02; done" % tail]
     if how.endswith('-stubborn'):
         return ['/bin/sh', '-c', "trap '' HUP INT; exec sleep 300"]
     if how != 'self':
@@ -156,7 +166,22 @@ def check_pty(case, col=None):
             with guard('close()'):
                 child.close()
             closed = True
-        if how in ('self', 'kill'):
+        elif how == 'close-refused':
+            with guard('expect READY'):
+                child.expect('READY')
+            refused = False
+            with guard('close(force=False)', allow=(pexpect.ExceptionPexpect,)):
+                try:
+                    child.close(force=False)
+                except pexpect.ExceptionPexpect:
+                    refused = True
+            closed = True
+            if not refused or child.terminated:
+                if col is not None:
+                    col.label('close-not-refused')
+                return          # nothing to observe: the precondition of this history was not reached
+            os.kill(child.pid, signal.SIGTERM if fate[0] == 'exit' else int(getattr(signal, 'SIG' + fate[1])))
+        if how in ('self', 'kill', 'close-refused'):
             if not wait_zombie(child.pid):
                 raise Violation('harness-child-did-not-die', 'the child %r is not a zombie after 10 s' % (cmd,))
         observed = how in ('terminate', 'close', 'terminate-stubborn', 'close-stubborn')
